@@ -304,17 +304,17 @@ theorem branchResult_int (r : String) (w0 : World)
       | some (.ok (g, w')) => (g.id == w0.next && g.state == seedState 7 && w'.globalState == w0.globalState) = true
       | _ => False)
     (hw : w0 = { globalState := 5, next := 3, entropy := 9 }) :
-    ∀ (s : Int) (w : World), branchResult r (.int s) w =
+    ∀ (s : Int) (w : World), 0 ≤ s ∧ s < 4294967296 → branchResult r (.int s) w =
       some (.ok ({ id := w.next, state := seedState s }, { w with next := w.next + 1 })) := by
   subst hw
-  intro s w
+  intro s w hs
   unfold branchResult at h ⊢
   by_cases h1 : (r == "entropy") = true
   · simp only [h1, if_true] at h
     simp [seedState] at h
   · simp only [h1] at h ⊢
     by_cases h2 : (r == "seeded") = true
-    · simp [h2]
+    · simp [h2, hs]
     · simp only [h2] at h ⊢
       by_cases h3 : (r == "same") = true
       · simp [h3] at h
@@ -336,7 +336,8 @@ def IntGoal (b : List (String × String)) : Prop :=
   | some (.ok (g, w')) => (g.id == 3 && g.state == seedState 7 && w'.globalState == 5) = true
   | _ => False
 
-theorem crs_int (b : List (String × String)) (h : IntGoal b) (s : Int) (w : World) :
+theorem crs_int (b : List (String × String)) (h : IntGoal b) (s : Int) (w : World)
+    (hs : 0 ≤ s ∧ s < 4294967296) :
     checkRandomState b (.int s) w =
       some (.ok ({ id := w.next, state := seedState s }, { w with next := w.next + 1 })) := by
   induction b with
@@ -354,17 +355,18 @@ theorem crs_int (b : List (String × String)) (h : IntGoal b) (s : Int) (w : Wor
       cases bv with
       | true =>
         simp only [hth] at h ⊢
-        exact branchResult_int r _ h rfl s w
+        exact branchResult_int r _ h rfl s w hs
       | false =>
         simp only [hth] at h ⊢
         exact ih h
 
 /-- **An int seed yields a private generator.** For every branch table that passes `crsOK` (the generated one is
-    re-checked on every run), for every seed and every world of existing generators: the result is a *new* object
+    re-checked on every run), for every seed numpy accepts (`0 ≤ seed < 2^32`, otherwise `RandomState` raises
+    ValueError and so does the model) and every world of existing generators (numpy's global one has identity 0): the result is a *new* object
     (its identity is the next unused one: not numpy's global generator 0, not any existing generator), its state is
     `RandomState(seed)`'s — a function of the seed alone —, and the global generator is left untouched. -/
 theorem check_random_state_private (b : List (String × String)) (hb : crsOK b = true) (s : Int) (w : World)
-    (hw : 0 < w.next) :
+    (hw : 0 < w.next) (hs : 0 ≤ s ∧ s < 4294967296) :
     ∃ g w', checkRandomState b (.int s) w = some (.ok (g, w')) ∧
       g.id = w.next ∧ g.id ≠ 0 ∧ g.state = seedState s ∧ w'.globalState = w.globalState := by
   have hint : IntGoal b := by
@@ -377,7 +379,7 @@ theorem check_random_state_private (b : List (String × String)) (hb : crsOK b =
       rw [heq]
       simpa using h1
     · simp at h1
-  refine ⟨_, _, crs_int b hint s w, rfl, ?_, rfl, rfl⟩
+  refine ⟨_, _, crs_int b hint s w hs, rfl, ?_, rfl, rfl⟩
   simp only; omega
 
 /-- non-vacuity: the pinned table passes, and `check_random_state(42)` in a world with two generators -/
